@@ -42,6 +42,7 @@ class Harness:
         self.interp = Interp(ctx, None)
         self.interp.theories = theory_np.make_theories(self.interp)
         theory_np.CUR = self.interp
+        theory_np.OPAQUE_ROUND[0] = False
         from . import theory_ext
 
         theory_ext.install(self.interp.theories, self.interp)
